@@ -4,7 +4,7 @@
 EXTENDS A5Lookup, Json
 ResClasses == << <<0, 0>>, <<1, 1>>, <<2, 2>>, <<3, 5>>, <<6, 15>>, <<16, 24>>, <<25, 29>> >>
 LookupLocs == {"uniform", "pole", "polar_cap", "antimeridian", "lon_alias", "seam", "face_vertex"}
-RingLocs == {"generic", "antimeridian", "pole", "pole_adjacent", "face_vertex"}
+RingLocs == {"generic", "antimeridian", "theta_seam", "pole", "pole_adjacent", "face_vertex"}
 RingNs == {0, 1, 2, 3, 7, 16, 64}      \* 0 = the resolution-dependent default
 DumpScenarios ==
   (k = 0 /\ seen = <<>>) =>
